@@ -238,6 +238,7 @@ type Obligation struct {
 	Raw     string
 	SmtFile string
 	Quantified bool
+	SpecFn     string        // ensures obligations: the generated Go function of the clause (used by the replayer)
 	EvalPkg    string        // closed fact: decided by running spec function EvalFn of package EvalPkg (go test on the real code)
 	EvalFn     string
 	PreText    func() string // covers after a call: the same path just before the callee's contract was assumed
